@@ -246,7 +246,7 @@ ADDED = {
     "C08": "Also: WhoIs failures that are context errors, media types that merely start with application/json, status tables and the get dispatch regenerated from the source (status_tables, generated_get_dispatch), wire bodies (Model/Wire).",
     "C09": "Also: a gateway error on the client's first exchange, and concurrent histories (a conditional get naming V never receives V; a non-linearizable history that becomes linearizable without its conditional gets is blamed on them).",
     "C10": "Also: service failures that wrap context.DeadlineExceeded while every context is alive, cancellation (not only deadlines) during construction, construction under a watchdog, empty values in caches, untidy prefixes for struct-tagged names.",
-    "C11": "Also: same-bytes versions, a poll round abandoned by its starter and joined by a second caller, a poller watchdog, freshness of every handle after a completed refresh, cache_holds_same.",
+    "C11": "Also: same-bytes versions, a poll round abandoned by its starter and joined by a second caller, a poller watchdog, freshness of every handle after a completed refresh, cache_holds_same; the ticker period as written in the source, translated to Lean on every run (gen_pollPeriod, theorem cadence_generated over all intervals and all draws).",
     "C12": "Also: the late second flight, a held poll abandoned while the service moves on, retained slices that must never change, a failed updater lookup after which readers must still progress.",
     "C13": "Also: transient cache write failures, a slow synchronised cache with a cache-behind check at every quiescent point, files that exist with mode 0644 or longer contents.",
     "C14": "Also: histories with vanishing state directory (the search admits 'internal error, nothing changed' for calls whose save may have failed), list-heavy histories by an exact-name caller under lock contention, several callers putting the same new bytes at once, empty values.",
